@@ -3,16 +3,41 @@
     Model: coq/W/Waker.v (Channel::new/send/is_closed/close and the channel's wake handler are part of
     the same interleaving machine as the wake bitmap; the channel mutex is a modelled SC lock).
     The executable monitor [C13_ok] (coq/W/Monitors.v) states the full property on traces and is
-    evaluated on the REAL traces by the check.  Proved here so far (see docs/layer_w.md for what is
-    missing): the wake-up side of the property. *)
+    evaluated on the REAL traces by the check.  Proved here, for every script, number of threads and
+    schedule: the state form of "no accepted message is lost or stranded" and of the close semantics
+    (invariant [ChInv], coq/W/Chan.v).  See docs/layer_w.md for what is missing. *)
 From Coq Require Import ZArith List Bool.
-From Stk Require Import Lib.U Gen.SrcWaker W.Waker W.WakerCore W.WakerRefine W.WakerProofs W.WakerGhost.
+From Stk Require Import Lib.U Gen.SrcWaker W.Waker W.WakerCore W.WakerRefine W.WakerProofs W.WakerGhost W.Chan.
 Import ListNotations.
 Local Open Scope Z_scope.
 
-(* FULL STATEMENT (not yet closed):
+(* FULL STATEMENT (trace form, not closed):
    forall scr sched, C13_ok (flatten (wtrace scr sched)) false = true
-   together with the state invariant  cq (chs st c) <> [] -> owed st (HChan c). *)
+   (each accepted message is forwarded exactly once, in per-sender order, never after the close has
+   completed).  The queue is a FIFO list that is appended under the mutex and taken as a whole under
+   the mutex; what is proved below is that it cannot be left non-empty. *)
+
+(** While the channel is open, a non-empty queue always has a wake-up owed to the channel's handler. *)
+Theorem C13_queue_owed : forall st c,
+  reachable st -> copen (chs st c) = true -> cq (chs st c) <> [] -> owed st (HChan c).
+Proof. exact chan_queue_owed. Qed.
+Print Assumptions C13_queue_owed.
+
+(** No accepted message is stranded: in every reachable quiescent state the queue of an open channel has been
+    taken by its handler, and no sender is left between its decision to push and the push. *)
+Theorem C13_not_stranded : forall st c,
+  reachable st -> quiescent st -> copen (chs st c) = true ->
+  cq (chs st c) = [] /\ forall t m, ~ In (IUnlock (MCh c) (UChPush c m)) (tcont (thr st t)).
+Proof. exact chan_not_stranded. Qed.
+Print Assumptions C13_not_stranded.
+
+(** Once the close has completed (no thread is about to clear the queue under the mutex), the queue of a closed
+    channel is empty: nothing can be forwarded from it any more, and [send] on it pushes nothing. *)
+Theorem C13_closed_empty : forall st c,
+  reachable st -> copen (chs st c) = false ->
+  (forall t, ~ In (IUnlock (MCh c) (UChClear c)) (tcont (thr st t))) -> cq (chs st c) = [].
+Proof. exact chan_closed_empty. Qed.
+Print Assumptions C13_closed_empty.
 
 (** No wake-up of a channel's handler is ever stranded: in every reachable quiescent state nothing is
     owed to the handler of channel [c]; and an owed wake-up of that handler is only discharged by a
